@@ -5,7 +5,7 @@
    Model/RemoteSpec.v (the specifications). *)
 From Oras Require Import Base.Prelude Base.Regex Generated.GC20 Generated.GC13 Model.Reference
   Model.Registry Model.RemoteClient Model.RemoteSpec
-  Proofs.Reference Proofs.RemoteClient Proofs.RemoteSeek Proofs.RemoteRefine.
+  Model.Location Proofs.Reference Proofs.RemoteClient Proofs.RemoteSeek Proofs.RemoteRefine Proofs.Location.
 
 (* ------------------------------------------------------------------ *)
 (* Refinement: the client run against the registry model behaves as the content store
@@ -243,6 +243,57 @@ Theorem C13_corruption_rejected_mount :
        (r_status r = 202 /\ rest <> [] /\ r_loc r <> None)).
 Proof. exact blob_mount_consistent. Qed.
 Print Assumptions C13_corruption_rejected_mount.
+
+(* ------------------------------------------------------------------ *)
+(* Step 2 of the two-step upload (Model/Location.v, completePushAfterInitialPost): the PUT
+   follows the Location of the 202 -- same scheme, host and path; the POST's authority for
+   an absolute-path Location; the port is restored only when the POST went to port 443 of
+   the same host and the Location names no port (issue 177); the query is the Location's
+   with digest=<descriptor digest> set, nothing else added or dropped. *)
+Theorem C13_location_authority :
+  forall req l dg,
+    let t := resolve req l in
+    let u := put_url req l dg in
+    u_scheme u = u_scheme t /\ u_host u = u_host t /\ u_path u = u_path t /\
+    u_port u = (if needs_repair req t then port443 else u_port t).
+Proof. exact put_url_authority. Qed.
+Print Assumptions C13_location_authority.
+
+Theorem C13_location_relative :
+  forall req p q dg,
+    let u := put_url req (LPath p q) dg in
+    u_scheme u = u_scheme req /\ u_host u = u_host req /\ u_port u = u_port req /\ u_path u = p.
+Proof. exact put_url_relative. Qed.
+Print Assumptions C13_location_relative.
+
+Theorem C13_location_port_repaired :
+  forall req sch pa q dg,
+    u_port req = port443 ->
+    let u := put_url req (LAbs (mkUrl sch (u_host req) [] pa q)) dg in
+    u_host u = u_host req /\ u_port u = port443 /\ u_path u = pa.
+Proof. exact put_url_repaired. Qed.
+Print Assumptions C13_location_port_repaired.
+
+Theorem C13_location_followed :
+  forall req t dg,
+    (u_port req <> port443 \/ u_host t <> u_host req \/ u_port t <> []) ->
+    let u := put_url req (LAbs t) dg in
+    u_scheme u = u_scheme t /\ u_host u = u_host t /\ u_port u = u_port t /\ u_path u = u_path t.
+Proof. exact put_url_followed. Qed.
+Print Assumptions C13_location_followed.
+
+Theorem C13_location_query :
+  forall req l dg k v,
+    In (k, v) (u_query (put_url req l dg)) <->
+    (k = k_digest /\ v = dg) \/ (k <> k_digest /\ In (k, v) (u_query (resolve req l))).
+Proof. exact put_url_query. Qed.
+Print Assumptions C13_location_query.
+
+Example C13_location_example :
+  put_url_str (b "https") (b "registry.example") (b "443")
+              (b "https://registry.example/v2/app/blobs/uploads/7?_state=s1") (b "sha256:ab")
+  = Some (b "https://registry.example:443/v2/app/blobs/uploads/7?_state=s1&digest=sha256%3Aab").
+Proof. vm_compute. reflexivity. Qed.
 
 (* ------------------------------------------------------------------ *)
 (* Read/Seek on a blob reader of a range-capable registry = an in-memory reader
